@@ -152,6 +152,7 @@ impl<'a> Cx<'a> {
             (LT::I("i64"), LT::F64) => format!("(Rs.i64ToF64 {})", x.term),
             (LT::F64, LT::BV(32)) => format!("(Rs.f64ToU32 {})", x.term),
             (LT::I("usize"), LT::F64) => format!("(Rs.usizeToF64 {})", x.term),
+            (LT::F64, LT::I("usize")) => format!("(Rs.f64ToUsize {})", x.term),
             (LT::Enum(n), LT::I(_)) => format!("(Fns.{}.discr {})", n, x.term),
             (LT::Enum(n), LT::BV(w)) => format!("(Rs.bvOfInt {} (Fns.{}.discr {}))", w, n, x.term),
             (a, b) => return self.un(format!("cast from {:?} to {:?} not modelled", a, b)),
@@ -205,6 +206,19 @@ impl<'a> Cx<'a> {
                     if let Some(v) = self.lookup(n) {
                         return Ok(pure(v.lean, v.ty));
                     }
+                    if let Some((l, i)) = self.elem_aliases.get(n).cloned() {
+                        // `let x = &mut LIST[i];`: a read of `x` is a read of the element as it is now
+                        let lv = self.list_lvalue(&l)?;
+                        let et = match &lv.ty {
+                            LT::List(t) => (**t).clone(),
+                            _ => unreachable!(),
+                        };
+                        let ix = self.expr(&i, Some(&LT::I("usize")))?;
+                        let mut pre = ix.pre;
+                        let v = self.fresh("t");
+                        pre.push(Pre::Bind(v.clone(), format!("(Rs.idx {} {})", lv.lean, ix.term)));
+                        return Ok(Tx { pre, term: v, ty: et });
+                    }
                     if n == "None" {
                         let t = match want {
                             Some(LT::Opt(t)) => (**t).clone(),
@@ -227,6 +241,9 @@ impl<'a> Cx<'a> {
                         LT::BV(w) => pure(format!("({}#{})", v, w), ty),
                         _ => pure(format!("({} : Int)", v), ty),
                     });
+                }
+                if let Some(bits) = self.f64_const(&last) {
+                    return Ok(pure(format!("({} : UInt64)", bits), LT::F64));
                 }
                 if segs.len() == 2 {
                     if segs[0] == "Value" && segs[1] == "None" {
@@ -638,7 +655,21 @@ impl<'a> Cx<'a> {
                     let annt = ann.clone();
                     let tx = self.expr(init, annt.as_ref())?;
                     pre.extend(tx.pre);
-                    let lean = self.declare(&name, tx.ty);
+                    // the lets of a value block are flattened into the enclosing term: a name that shadows one still needed afterwards
+                    // gets a Lean name of its own
+                    let shadows = self.lookup(&name).is_some() || self.elem_aliases.contains_key(&name);
+                    let lean = if shadows {
+                        let l = self.fresh(&lean_ident(&name));
+                        let saved = self.elem_aliases.get(&name).cloned();
+                        self.scopes.last_mut().unwrap().insert(name.clone(), Var { lean: l.clone(), ty: tx.ty });
+                        if let Some(a) = saved {
+                            // (kept: the alias is visible again once the block's scope is popped)
+                            self.elem_aliases.insert(name.clone(), a);
+                        }
+                        l
+                    } else {
+                        self.declare(&name, tx.ty)
+                    };
                     pre.push(Pre::Let(lean, tx.term));
                 }
                 Stmt::Expr(e, None) if k + 1 == b.stmts.len() => {
@@ -749,6 +780,43 @@ impl<'a> Cx<'a> {
                 }
                 Ok(Tx { pre: x.pre, term: format!("(Rs.Value.Number {})", x.term), ty: LT::Value })
             }
+            ("mem::take", 1) | ("std::mem::take", 1) => {
+                // `mem::take(x)` of an optional: answers what `x` holds and leaves `None`
+                if let Some((l, i)) = self.elem_alias_of(args[0]) {
+                    let lv = self.list_lvalue(&l)?;
+                    let et = match &lv.ty {
+                        LT::List(t) => (**t).clone(),
+                        _ => unreachable!(),
+                    };
+                    if !matches!(et, LT::Opt(_)) {
+                        return self.un("`mem::take` of an element that is not an option");
+                    }
+                    let ix = self.expr(&i, Some(&LT::I("usize")))?;
+                    let mut pre = ix.pre;
+                    let old = self.fresh("t");
+                    pre.push(Pre::Bind(old.clone(), format!("(Rs.idx {} {})", lv.lean, ix.term)));
+                    let nl = self.fresh("t");
+                    pre.push(Pre::Bind(nl.clone(), format!("(Rs.setIdx {} {} none)", lv.lean, ix.term)));
+                    pre.push(Pre::Let(lv.lean.clone(), nl));
+                    return Ok(Tx { pre, term: old, ty: et });
+                }
+                let inner = match args[0] {
+                    Expr::Reference(r) => &*r.expr,
+                    other => other,
+                };
+                if let Expr::Path(pp) = inner {
+                    if pp.path.segments.len() == 1 {
+                        if let Some(v) = self.lookup(&pp.path.segments[0].ident.to_string()) {
+                            if matches!(v.ty, LT::Opt(_)) {
+                                let old = self.fresh("t");
+                                let pre = vec![Pre::Let(old.clone(), v.lean.clone()), Pre::Let(v.lean.clone(), "none".to_string())];
+                                return Ok(Tx { pre, term: old, ty: v.ty });
+                            }
+                        }
+                    }
+                }
+                self.un("`mem::take` of something other than an optional local or list element")
+            }
             ("u64::from_ne_bytes", 1) => {
                 // u64::from_ne_bytes(x.to_ne_bytes()) of an f64: the bit pattern
                 if let Expr::MethodCall(m) = args[0] {
@@ -804,27 +872,32 @@ impl<'a> Cx<'a> {
         };
         let comps: Vec<String> = rp.split('.').skip(1).map(|s| s.to_string()).collect();
         let root = rp.split('.').next().unwrap_or("self").to_string();
-        if comps.is_empty() {
+        let on_self = comps.is_empty();
+        if on_self && !(rp == "self" && self.self_ty.as_deref().map(|o| INLINE_SELF_CALL_OWNERS.contains(&o)).unwrap_or(false)) {
             return Ok(None);
         }
-        let rty = match self.place_type(&root, &comps) {
-            Ok(t) => t,
-            Err(_) => return Ok(None),
-        };
-        let mut rty = rty;
-        loop {
-            match &rty {
-                Ty::Ref(i) => rty = (**i).clone(),
-                Ty::Path { name, args } if TRANSPARENT.contains(&name.as_str()) && args.len() == 1 => rty = args[0].clone(),
-                _ => break,
+        let head = if on_self {
+            self.self_ty.clone().unwrap()
+        } else {
+            let rty = match self.place_type(&root, &comps) {
+                Ok(t) => t,
+                Err(_) => return Ok(None),
+            };
+            let mut rty = rty;
+            loop {
+                match &rty {
+                    Ty::Ref(i) => rty = (**i).clone(),
+                    Ty::Path { name, args } if TRANSPARENT.contains(&name.as_str()) && args.len() == 1 => rty = args[0].clone(),
+                    _ => break,
+                }
             }
-        }
-        let head = match rty.head() {
-            Some(h) => h.to_string(),
-            None => return Ok(None),
+            match rty.head() {
+                Some(h) => h.to_string(),
+                None => return Ok(None),
+            }
         };
         let sig = match self.callees.get(&format!("{}::{}", head, m.method)) {
-            Some(s) if s.simple && s.owner.as_deref() == Some(head.as_str()) => s.clone(),
+            Some(s) if (s.simple || (on_self && s.simple_fuel)) && s.owner.as_deref() == Some(head.as_str()) => s.clone(),
             _ => return Ok(None),
         };
         if sig.rust_params.len() != m.args.len() {
@@ -832,6 +905,11 @@ impl<'a> Cx<'a> {
         }
         let mut pre = Vec::new();
         let mut terms = Vec::new();
+        if sig.simple_fuel {
+            // the callee's `loop` bound is handed on: this function takes one too
+            self.loop_fuel = true;
+            terms.push("fuel_".to_string());
+        }
         // value parameters, in order
         let mut vi = 0;
         let mut arg_places: BTreeMap<String, String> = BTreeMap::new();
@@ -914,6 +992,33 @@ impl<'a> Cx<'a> {
         }
         if let Some(tx) = self.call_translated_on_place(m)? {
             return Ok(tx);
+        }
+        if name == "replace" && args.len() == 1 {
+            if let Some((l, i)) = self.elem_alias_of(&m.receiver) {
+                // `x.replace(v)` where `let x = &mut LIST[i];` and the elements are options: answers the old element, stores `Some(v)`
+                let lv = self.list_lvalue(&l)?;
+                let et = match &lv.ty {
+                    LT::List(t) => (**t).clone(),
+                    _ => unreachable!(),
+                };
+                let inner = match &et {
+                    LT::Opt(t) => (**t).clone(),
+                    _ => return self.un("`replace` through a reference to an element that is not an option"),
+                };
+                let x = self.expr(args[0], Some(&inner))?;
+                if x.ty != inner {
+                    return self.un("`replace` on an optional element: modelled types differ");
+                }
+                let ix = self.expr(&i, Some(&LT::I("usize")))?;
+                let mut pre = x.pre;
+                pre.extend(ix.pre);
+                let old = self.fresh("t");
+                pre.push(Pre::Bind(old.clone(), format!("(Rs.idx {} {})", lv.lean, ix.term)));
+                let nl = self.fresh("t");
+                pre.push(Pre::Bind(nl.clone(), format!("(Rs.setIdx {} {} (some {}))", lv.lean, ix.term, x.term)));
+                pre.push(Pre::Let(lv.lean.clone(), nl));
+                return Ok(Tx { pre, term: old, ty: et });
+            }
         }
         if self.vm_mode {
             let rp = self.path_of(&m.receiver);
@@ -1232,5 +1337,39 @@ impl<'a> Cx<'a> {
                 return Ok(None);
             }
         }))
+    }
+}
+
+impl<'a> Cx<'a> {
+    /// `const NAME: f64 = <float literal>;` anywhere in the sources (also inside nested modules): its bit pattern.
+    fn f64_const(&self, name: &str) -> Option<u64> {
+        fn walk(items: &[syn::Item], name: &str, out: &mut Vec<u64>) {
+            for it in items {
+                match it {
+                    syn::Item::Const(c) if c.ident == name && compact(&toks(&*c.ty)) == "f64" => {
+                        if let Expr::Lit(syn::ExprLit { lit: syn::Lit::Float(f), .. }) = &*c.expr {
+                            if let Ok(v) = f.base10_parse::<f64>() {
+                                out.push(v.to_bits());
+                            }
+                        }
+                    }
+                    syn::Item::Mod(m) => {
+                        if let Some((_, its)) = &m.content {
+                            walk(its, name, out);
+                        }
+                    }
+                    _ => {}
+                }
+            }
+        }
+        let mut out = Vec::new();
+        for s in self.srcs {
+            walk(&s.ast.items, name, &mut out);
+        }
+        if out.len() == 1 {
+            Some(out[0])
+        } else {
+            None
+        }
     }
 }
